@@ -486,6 +486,9 @@ def need_dimless(a, fname, node):
     return Unk(f"{fname}({a})")
 
 
+COUNT_SYMS = {"n", "c", "q", "p", "k", "N", "m", "r"}      # extents / counts / formal markers: integers, rounding is legitimate
+
+
 def check_decision(a, b, node, what):
     a, b = num(a), num(b)
     if isinstance(a, Any_) or isinstance(b, Any_):
@@ -760,7 +763,20 @@ def t_csd(args, kw, node):
 
 def t_isclose(args, kw, node):
     check_decision(args[0], args[1], node, "isclose")
+    # against a literal zero only the ABSOLUTE tolerance acts (rtol * 0 = 0): on a dimensional quantity that is a scale-dependent test
+    for x, y in ((args[0], args[1]), (args[1], args[0])):
+        if isinstance(y, Cst) and isinstance(y.v, (int, float)) and not isinstance(y.v, bool) and y.v == 0:
+            vx = num(x)
+            at = kw.get("atol")
+            explicit_zero = isinstance(at, Cst) and at.v == 0
+            if isinstance(vx, Deg) and vx.sup != {()} and not explicit_zero and not (at is not None and isinstance(num(at), Deg) and num(at).sup == vx.sup):
+                CTX.event("decision", node, f"isclose(x, 0) with an absolute tolerance on a quantity of degree {vx.fmt()}")
+            break
     return BOOL
+
+
+def t_outer(args, kw, node):
+    return withrank(mul(args[0], args[1]), 2)
 
 
 def t_curve_fit(args, kw, node):
@@ -783,11 +799,23 @@ def t_eye(args, kw, node):
     return Deg({()}, 2)
 
 
+def _rounding_event(v, node, what):
+    if isinstance(v, Deg) and any(s_ not in COUNT_SYMS for t_ in v.sup for s_, e_ in t_):
+        CTX.event("nonhom", node, f"{what} of a dimensional quantity {v.fmt()} (rounding is not scale covariant)")
+
+
+def t_round(args, kw, node):
+    v = num(args[0])
+    _rounding_event(v, node, "rounding")
+    return v
+
+
 def t_int(args, kw, node):
     a = args[0]
     if isinstance(a, Cst) and isinstance(a.v, (int, float)):
         return Cst(int(a.v))
     v = num(a)
+    _rounding_event(v, node, "int()")
     if isinstance(v, Deg) and v.sup != {()}:
         return v
     return Deg({()}, 0)
@@ -1009,7 +1037,7 @@ class ShapeV(V):
 
 
 NP = {
-    "dot": t_dot, "matmul": t_dot, "kron": t_kron, "vstack": t_stack, "hstack": t_stack, "concatenate": t_stack,
+    "dot": t_dot, "matmul": t_dot, "kron": t_kron, "outer": t_outer, "round": t_round, "around": t_round, "rint": t_round, "floor": t_round, "ceil": t_round, "trunc": t_round, "float64": t_array, "float32": t_array, "complex128": t_array, "int64": t_int, "vstack": t_stack, "hstack": t_stack, "concatenate": t_stack,
     "stack": t_stack, "column_stack": t_stack, "block": lambda a, k, n: withrank(num(a[0]), 2), "row_stack": t_stack, "array": t_array, "asarray": t_array, "zeros": t_zero,
     "empty": t_zero, "zeros_like": t_zeros_like, "empty_like": t_zeros_like, "ones": t_ones, "ones_like": t_ones_like,
     "full": t_full, "full_like": t_full_like, "ascontiguousarray": t_array, "asanyarray": t_array, "asfortranarray": t_array, "eye": t_eye, "identity": t_eye, "diag": t_diag, "sqrt": t_sqrt, "abs": t_abs, "absolute": t_abs,
@@ -1045,7 +1073,7 @@ EXTF = {
     "math.sqrt": t_sqrt, "math.log": t_log, "math.exp": t_exp,
 }
 BUILTINS = {
-    "len": t_len, "int": t_int, "float": t_float, "complex": t_float, "abs": t_abs, "range": t_range, "zip": t_zip,
+    "round": t_round, "len": t_len, "int": t_int, "float": t_float, "complex": t_float, "abs": t_abs, "range": t_range, "zip": t_zip,
     "enumerate": t_enumerate, "list": t_list, "max": t_minmax, "min": t_minmax, "set": t_set, "sorted": t_list,
     "str": lambda a, k, n: BOOL, "repr": lambda a, k, n: BOOL, "isinstance": t_isinstance, "round": t_int,
     "print": t_const, "sum": t_reduce, "tuple": t_tuple, "dict": t_dict, "type": lambda a, k, n: BOOL,
@@ -1555,6 +1583,12 @@ def binop(op, a, b, node):
         return matmul(a, b)
     if isinstance(op, ast.Div):
         return mul(a, inv(b, "division", node))
+    if isinstance(op, (ast.FloorDiv, ast.Mod)):
+        # floor(c x) != c floor(x): integer division / remainder of a quantity that carries a physical unit or gain is not homogeneous
+        for v_ in (num(a), num(b)):
+            if isinstance(v_, Deg) and any(s_ not in COUNT_SYMS for t_ in v_.sup for s_, e_ in t_):
+                CTX.event("nonhom", node, f"{'floor division' if isinstance(op, ast.FloorDiv) else 'remainder'} of a dimensional quantity {v_.fmt()} (rounding is not scale covariant)")
+                break
     if isinstance(op, ast.FloorDiv):
         na = num(a)
         return Deg({()}, getattr(na, "rank", None)) if isinstance(na, Deg) and na.sup == {()} else mul(a, inv(b, "division", node))
